@@ -137,7 +137,7 @@ func TestC03(t *testing.T) {
 			"Non-trivial history: a rejected transaction followed by a committed one, or a unique value re-used after delete / handed from one entity to another, or a patch that skips the indexed name while its payload differs. Distinct by hash of the history JSON; sub_evaluations counts transactions.",
 		Assumptions: []string{"'changes nothing' is asserted at transaction granularity (an error aborts the bbolt transaction; continuing inside a failed transaction is not a documented use)",
 			"set indexes are over string sets (the only list type PersistContext writes); sets of other element types need hand-rolled persistence and are outside the domain"},
-		Gen:         genC03, Run: runC03,
-		QuickChecks: 500, ThoroughFactor: 20,
+		Gen: genC03, Run: runC03,
+		QuickChecks: 1000, ThoroughFactor: 10,
 	})
 }
